@@ -2,3 +2,4 @@
 #include "verif_rt.h"
 uint32_t sched_yield(void) { return 0; }
 uint32_t nanosleep(void *req, void *rem) { return 0; }
+
